@@ -380,12 +380,60 @@ def eval_registry_duplicate(case):
     return fails
 
 
+def eval_registry_rejected(case):
+    """A registration that is rejected leaves nothing behind: the rejected definition does not resolve later (not even once
+    its missing base has been registered by itself), and a later registration of good definitions is not refused because
+    of it."""
+    from . import c20
+    bad, later = case["bad"], case["later"]
+    ops = [{"k": "register", "defs": [bad]},
+           {"k": "register", "defs": [later]},
+           {"k": "find", "version": later["version"], "annotation": later["annotation"]},
+           {"k": "find", "version": bad["version"], "annotation": bad["annotation"]}]
+    res = c20.run_history({"ops": ops, "late_import": case.get("late_import", False)})
+    where = dict(case, kind="registry-rejected")
+    if "crash" in res:
+        return [dict(where, what="the registration history crashed the interpreter", got=res["crash"][-300:])]
+    st = res["steps"]
+    fails = []
+    if st[0].get("exc") is None:
+        return []                      # (not rejected: the other families judge what an accepted definition must look like)
+    if st[1].get("exc") is not None:
+        fails.append(dict(where, what="after a rejected registration, registering a well-formed definition is refused (%s)" % st[1]["exc"]))
+    elif st[2].get("annotation") != later["annotation"]:
+        fails.append(dict(where, what="after a rejected registration, a well-formed definition registered later does not resolve"))
+    elif st[3].get("found", "x") is not None or "annotation" in st[3]:
+        fails.append(dict(where, what="a definition whose only registration was rejected resolves after a later registration"))
+    return fails
+
+
+def registry_rejected_cases(ctx, out):
+    rng = ctx.rng("c14-rejected")
+    for k in range(ctx.scale(6, 30)):
+        base = {"version": "core-%d.0" % k, "annotation": "core-%d.0" % k, "extends": None, "filtered": None, "columns": [["A_Col", "NullableStringColumn"]]}
+        if rng.random() < 0.5:        # unknown base, then the base alone
+            bad = {"version": "core-%d.0" % k, "annotation": "core-%d.0-ext" % k, "extends": base["annotation"], "filtered": None, "columns": [["B_Col", "NullableStringColumn"]]}
+            later = base
+        else:                         # unknown column type, then an unrelated good definition
+            bad = {"version": "odd-%d" % k, "annotation": "odd-%d-x" % k, "extends": rng.choice([None, "gdc-1.0.0"]), "filtered": None, "columns": [["B_Col", "NoSuchColumnType"]]}
+            later = base
+        case = {"bad": bad, "later": later, "late_import": rng.random() < 0.3}
+        out.evaluations += 1
+        out.failures += eval_registry_rejected(case)
+        out.distribution["registry: a rejected registration, then a good one"] += 1
+        out.nontrivial.add(json.dumps(case, sort_keys=True))
+
+
 def registry_duplicate_cases(ctx, out):
     rng = ctx.rng("c14-registry")
     shipped = ["gdc-1.0.0-protected", "gdc-1.0.0-public", "gdc-1.0.0"]
     for k in range(ctx.scale(6, 30)):
         col = ["My_Column_%d" % k, rng.choice(["NullableStringColumn", "StringColumn", "NullableIntegerColumn"])]
-        if rng.random() < 0.5:
+        if k % 5 == 4:
+            # the pair of the pseudo-scheme every registry holds
+            case = {"first": None, "dup": {"version": "no-version", "annotation": "no-annotation-specification", "extends": None, "filtered": None, "columns": [col]},
+                    "probe": ["gdc-1.0.0", None]}
+        elif rng.random() < 0.5:
             ann = rng.choice(shipped)
             case = {"first": None, "dup": {"version": "gdc-1.0.0", "annotation": ann, "extends": rng.choice([None, "gdc-1.0.0"]) if ann != "gdc-1.0.0" else None,
                                             "filtered": None, "columns": [col]}, "probe": ["gdc-1.0.0", None if ann == "gdc-1.0.0" else ann]}
@@ -433,6 +481,7 @@ def run(ctx):
             out.sample({"defs": [{k: d[k] for k in ("annotation", "extends", "filtered")} | {"columns": d["columns"]} for d in defs]})
     shipped_orders(ctx, out, rng)
     registry_duplicate_cases(ctx, out)
+    registry_rejected_cases(ctx, out)
     returned_list_cases(ctx, out)
     mo = ctx.driver.run(reqs)
     for r, m, i in zip(reqs, mo, impls):
@@ -485,6 +534,14 @@ def replay_case(ctx, failure):
     if failure.get("kind") == "returned-list" and "annotation" in failure:
         fails = eval_returned_lists(failure["annotation"])
         print("replay C14: find_scheme(%s); the lists returned by column_names() / column_descriptions() edited in place; the same instance consulted again" % failure["annotation"])
+        for x in fails:
+            print("  oracle: %s" % x["what"])
+        return fails
+    if failure.get("kind") == "registry-rejected" and "bad" in failure:
+        case = {k: failure[k] for k in ("bad", "later", "late_import") if k in failure}
+        fails = eval_registry_rejected(case)
+        print("replay C14: fresh interpreter; all_schemes(extra_filenames=[%r]) (rejected), then all_schemes(extra_filenames=[%r]); both pairs looked up" % (
+            case["bad"]["annotation"], case["later"]["annotation"]))
         for x in fails:
             print("  oracle: %s" % x["what"])
         return fails
